@@ -5,6 +5,7 @@ package main
 
 import (
 	"fmt"
+	"go/ast"
 	"go/constant"
 	"go/token"
 	"go/types"
@@ -53,6 +54,15 @@ type Frame struct {
 	defers []deferred
 	// for discovery: loop stack limits
 	stop map[*ssa.BasicBlock]bool
+	// names: current value (or address, for variables kept in memory) of source-level local variables,
+	// maintained from go/ssa DebugRef instructions; lets contracts mention locals and named results
+	names map[string]nameBinding
+}
+
+type nameBinding struct {
+	v      Value
+	t      types.Type
+	isAddr bool
 }
 
 func (f *Frame) clone() *Frame {
@@ -67,6 +77,13 @@ func (f *Frame) clone() *Frame {
 	n := *f
 	n.regs = r
 	n.cuts = c
+	if f.names != nil {
+		nm := make(map[string]nameBinding, len(f.names))
+		for k, v := range f.names {
+			nm[k] = v
+		}
+		n.names = nm
+	}
 	return &n
 }
 
@@ -300,6 +317,11 @@ func (ex *Exec) execBlock(st *State, fr *Frame, b *ssa.BasicBlock, pred *ssa.Bas
 		}
 		for i, p := range phis {
 			fr.regs[p] = vals[i]
+			if p.Comment != "" && fr.names != nil {
+				if _, ok := fr.names[p.Comment]; ok {
+					fr.names[p.Comment] = nameBinding{vals[i], p.Type(), false}
+				}
+			}
 		}
 	}
 	if li != nil {
@@ -411,6 +433,15 @@ func (ex *Exec) execFrom(st *State, fr *Frame, b *ssa.BasicBlock, idx int) []Out
 			}
 			if c.IsFalse() {
 				return ex.execBlock(st, fr, b.Succs[1], b)
+			}
+			// a branch whose condition (or its negation) is literally on the path condition is decided
+			for q := st.pc; q != nil; q = q.prev {
+				if q.t == c {
+					return ex.execBlock(st, fr, b.Succs[0], b)
+				}
+				if q.t == Not(c) {
+					return ex.execBlock(st, fr, b.Succs[1], b)
+				}
 			}
 			ex.forks++
 			feasT, feasF := true, true
@@ -573,6 +604,21 @@ func (ex *Exec) constValue(c *ssa.Const) Value {
 func (ex *Exec) step(st *State, fr *Frame, in ssa.Instruction) {
 	switch x := in.(type) {
 	case *ssa.DebugRef:
+		if id, ok := x.Expr.(*ast.Ident); ok && id.Name != "_" {
+			obj := x.Object()
+			local := obj != nil && obj.Pkg() != nil && obj.Parent() != obj.Pkg().Scope()
+			if _, isFn := x.X.(*ssa.Function); !isFn && local {
+				if v, ok2 := fr.regs[x.X]; ok2 || isConstLike(x.X) {
+					if !ok2 {
+						v = ex.operand(st, fr, x.X)
+					}
+					if fr.names == nil {
+						fr.names = map[string]nameBinding{}
+					}
+					fr.names[id.Name] = nameBinding{v, x.X.Type(), x.IsAddr}
+				}
+			}
+		}
 	case *ssa.Alloc:
 		et := x.Type().Underlying().(*types.Pointer).Elem()
 		ap := st.allocCell(zeroValue(et), true, x.Comment)
@@ -673,6 +719,14 @@ func (ex *Exec) step(st *State, fr *Frame, in ssa.Instruction) {
 	default:
 		oos("unsupported instruction %T: %s", in, in)
 	}
+}
+
+func isConstLike(v ssa.Value) bool {
+	switch v.(type) {
+	case *ssa.Const, *ssa.Global:
+		return true
+	}
+	return false
 }
 
 type VMapRef struct{ Obj int }
@@ -1344,7 +1398,18 @@ func (ex *Exec) typeAssert(st *State, fr *Frame, x *ssa.TypeAssert) Value {
 		} else {
 			okT = And(Not(nilT(v.Nil)), App("typeis:"+typeStr(x.AssertedType), BoolSort, v.ID))
 			// payload: a fresh symbolic value of the asserted type, memoised per (id, type) through naming
+			before := objCtr
 			res = st.symValue(x.AssertedType, fmt.Sprintf("%s.(%s)", idxName(v.ID), typeStr(x.AssertedType)), 3, true)
+			// the payload existed before the call: its objects belong to the entry heap (frame obligations cover them)
+			if ex.entry != nil && ex.entry.Heap != nil && !ex.inDiscovery() {
+				for id := before + 1; id <= objCtr; id++ {
+					if o := st.heap[id]; o != nil {
+						if _, ok := ex.entry.Heap[id]; !ok {
+							ex.entry.Heap[id] = o
+						}
+					}
+				}
+			}
 		}
 	}
 	if x.CommaOk {
